@@ -360,7 +360,11 @@ def activate_domain_and_interventions(
     if isinstance(expression, Probability):
         if not isinstance(expression, PopulationProbability):
             raise TypeError
-        distribution = Distribution.safe(set(expression.children) - interventions)
+        children = set(expression.children) - interventions
+        if not children:
+            # under the intervention, the intervened variables take their values with probability one
+            return One()
+        distribution = Distribution.safe(children)
         # a conditional probability stays conditional on the same variables, except for the
         # transport nodes, which are accounted for by annotating the probability with the domain
         parents = {
